@@ -40,8 +40,13 @@ install()
 _MEMO: dict = {}
 
 
+MEMO_OFF = [False]      # ephemeral relations build fresh expression objects that die with them
+
+
 def build_expr(e, tags):
     """Same JSON expression -> same library object within a run (callers share expression objects)."""
+    if MEMO_OFF[0]:
+        return _build_expr(e, tags)
     k = ("e", id(tags), json.dumps(e))
     if k not in _MEMO:
         _MEMO[k] = _build_expr(e, tags)
@@ -49,6 +54,8 @@ def build_expr(e, tags):
 
 
 def build_pred(p, tags):
+    if MEMO_OFF[0]:
+        return _build_pred(p, tags)
     k = ("p", id(tags), json.dumps(p))
     if k not in _MEMO:
         _MEMO[k] = _build_pred(p, tags)
